@@ -14,11 +14,15 @@
   * `tzstr_norule_posix` — hence (by `tzstr_posix_partial`) utcoffset / dst / tzname of such a zone are POSIX's for that
     specification at every instant, for every saving in (0, 2 h] (beyond 2 h the end time minus the saving leaves the day:
     D-C08-time-before-weekday's class).
-  The step "this rule-less string parses to this result" is by kernel evaluation for the strings below and by the `tz.parse` /
-  `tz.zone` correspondence on generated rule-less strings (harness/props/c08.py: gen_norule_spec); a `tzstr_render` for
-  rule-less spellings (arbitrary digit tokens) is not proved.
+  * `tzstr_norule_hours` — from the STRING for two whole tables: `AAA<h>BBB<h>` and `AAA-<h>BBB-<h>`, all hours 0..12 on both sides
+    (338 strings: kernel evaluation of the parser, `norule_parse_table_uu/_mm`, then `tzstr_norule_zone`).
+  For other rule-less spellings (minutes, four-digit offsets, other abbreviations) the step "this string parses to this result" is
+  kernel evaluation for the sample strings below and the `tz.parse` / `tz.zone` correspondence on generated rule-less strings
+  (harness/props/c08.py: gen_norule_spec); a `tzstr_render` for rule-less spellings with arbitrary digit tokens is not proved.
 -/
 import DateutilVerif.Properties.C08
+import DateutilVerif.Proofs.TzStrTableNR1
+import DateutilVerif.Proofs.TzStrTableNR2
 
 namespace C08
 open TzStr Posix
@@ -142,13 +146,40 @@ theorem tzstr_norule_posix (s : String) (posix : Bool) (res : Res) (sa da : Stri
   rw [hz3, hz4] at w4
   exact ⟨z, w, hz1, w1, w2, w3, w4⟩
 
-/-! non-vacuity: rule-less strings with a saving other than one hour parse to rule-less results (kernel evaluation) -/
-def noRuleRes (s : String) (sa da : String) (so : Int) (d : Option Int) : Bool :=
-  match parse s with
-  | .ok (some r) => r.stdabbr == some sa && r.dstabbr == some da && r.stdoffset == some so && r.dstoffset == d &&
-      r.start == {} && r.«end» == {} && !r.anyUnused
-  | _ => false
+/-- from the table predicate to the hypotheses of `tzstr_norule_zone` -/
+theorem noRuleRes_spec {s sa da : String} {so : Int} {d : Option Int} (h : noRuleRes s sa da so d = true) :
+    ∃ res, parse s = .ok (some res) ∧ res.anyUnused = false ∧ res.stdabbr = some sa ∧ res.dstabbr = some da ∧
+      res.stdoffset = some so ∧ res.dstoffset = d ∧ res.start = {} ∧ res.«end» = {} := by
+  unfold noRuleRes at h
+  split at h
+  · rename_i r hp
+    simp only [Bool.and_eq_true, beq_iff_eq, Bool.not_eq_true'] at h
+    obtain ⟨⟨⟨⟨⟨⟨h1, h2⟩, h3⟩, h4⟩, h5⟩, h6⟩, h7⟩ := h
+    exact ⟨r, hp, h7, h1, h2, h3, h4, h5, h6⟩
+  · cases h
 
+/-- **whole tables, string → zone**: for all hours 0..12 on both sides, unsigned (`AAA5BBB3`, west of Greenwich) or with `-`
+    (`AAA-2BBB-4`, east), `tzstr` of the rule-less STRING builds the zone of `AAA<std>BBB<dst>,M4.1.0/2,M10.5.0/2` (338 strings
+    by kernel evaluation of the parser, then `tzstr_norule_zone`) -/
+theorem tzstr_norule_hours (east : Bool) (a b : Fin 13) :
+    let sg := if east then "-" else ""
+    ∃ z, tzstr (nrString sg a.val sg b.val) false = .ok z ∧ IsZoneOf (defaultSpec (nrVal sg a.val) (nrVal sg b.val)) z := by
+  intro sg
+  have hb : ∀ h : Fin 13, tdCheck (nrVal sg h.val) = .ok () := by
+    intro h; cases east <;> (revert h; decide +kernel)
+  have key : noRuleRes (nrString sg a.val sg b.val) "AAA" "BBB" (nrVal sg a.val) (some (nrVal sg b.val)) = true := by
+    cases east
+    · exact norule_parse_table_uu a b
+    · exact norule_parse_table_mm a b
+  obtain ⟨res, hp, hu, h1, h2, h3, h4, hs, he⟩ := noRuleRes_spec key
+  obtain ⟨z, hz1, hz2, _, _⟩ := tzstr_norule_zone _ false res "AAA" "BBB" (nrVal sg a.val) hp hu h1 h2 (by decide) h3 hs he
+    (nrVal sg a.val) (nrVal sg b.val)
+    (by have : (("AAA" == "GMT" || "AAA" == "UTC") && !false) = false := by decide
+        simp only [this, Bool.false_eq_true, if_false])
+    (by rw [h4]; rfl) (hb a) (hb b)
+  exact ⟨z, hz1, hz2⟩
+
+/-! non-vacuity: rule-less strings with a saving other than one hour parse to rule-less results (kernel evaluation) -/
 example : noRuleRes "EST5EDT3" "EST" "EDT" (-18000) (some (-10800)) = true := by decide +kernel
 example : noRuleRes "LHST-10:30LHDT-11" "LHST" "LHDT" 37800 (some 39600) = true := by decide +kernel
 example : noRuleRes "AAA-2BBB-2:20" "AAA" "BBB" 7200 (some 8400) = true := by decide +kernel
